@@ -128,6 +128,102 @@ def build(reg):
         loops={"target:c": {"index": "_i", "invariant": ["not connectionUpgrade"], "modifies": [], "pure_calls": True}},
         inline_calls=[CLI + ".failHandshake"], **common)
 
+    build_server(reg, common)
+
+
+def build_server(reg, common):
+    """server side: WebSocketServerProtocol.processHandshake up to the point where onConnect is scheduled"""
+    from pyvc import models, natives
+    SRV = P + ":WebSocketServerProtocol"
+    G = reg.shapes["Ghost"].fields
+    G.update({"n_fail": "nat", "fail_code": "int", "n_status": "nat"})
+
+    def bump(field):
+        def f(ex, state, args, kwargs, sv):
+            g = _g(state)
+            g.fields[field] = VInt(simp(g.fields[field].t + 1))
+            return VNone
+        return f
+    reg.external("hs.status", bump("n_status"))
+    reg.external("hs.as_future", lambda ex, state, args, kwargs, sv: (bump("n_onconnect")(ex, state, args, kwargs, sv),
+                                                                      VOpaque(fresh_name("onconnect_future")))[1])
+    models.CLASS_MODELS["ConnectionRequest"] = lambda ex, state, args, kwargs: VOpaque(fresh_name("request"))
+    reg.shape("SrvFactory", fields={"isServer": "const:True", "externalPort": "opt:int", "port": "int", "isSecure": "bool",
+                                    "allowNullOrigin": "bool", "countConnections": "nat"})
+    reg.shape("HsServer", cls=SRV, fields={
+        "log": "logger", "data": "bytes", "state": "range:0:4", "http_request_data": "bytes", "http_status_line": "str",
+        "http_headers": "dict:str->str", "http_request_uri": "str", "http_request_path": "any", "http_request_params": "any",
+        "http_request_host": "str", "factory": "obj:SrvFactory", "trustXForwardedFor": "nat", "peer": "any",
+        "webStatus": "bool", "versions": "list:int", "websocket_version": "int", "websocket_protocols": "any",
+        "websocket_origin": "str", "allowedOriginsPatterns": "any", "websocket_extensions": "any", "_wskey": "opt:str",
+        "maxConnections": "nat", "serveFlashSocketPolicy": "bool", "flashSocketPolicy": "str",
+        "wasServingFlashSocketPolicyFile": "bool", "wasNotCleanReason": "opt:str"},
+        methods={"dropConnection": "hs.drop", "sendServerStatus": "hs.status", "sendRedirect": "hs.status",
+                 "sendHtml": "hs.status", "sendData": "noop", "onConnect": "noop", "succeedHandshake": "noop",
+                 "sendHttpErrorResponse": "noop", "_parseExtensionsHeader": "hs.parse_ext"})
+    reg.external("hs.parse_ext", lambda ex, state, args, kwargs, sv: VOpaque(fresh_name("extensions")))
+
+    def ext_http_error(ex, state, args, kwargs, sv):
+        g = _g(state)
+        g.fields["n_fail"] = VInt(simp(g.fields["n_fail"].t + 1))
+        g.fields["fail_code"] = args[0]
+        return VNone
+    reg.external("hs.http_error", ext_http_error)
+    reg.shapes["HsServer"].methods["sendHttpErrorResponse"] = "hs.http_error"
+    reg.external("txaio.as_future", reg.externals["hs.as_future"])
+    reg.contract(P + ":_url_to_origin", params={"url": "str"}, returns="any", raises={"ValueError": "True"}, verify=False,
+                 **common)
+    reg.contract(P + ":_is_same_origin", params={"websocket_origin": "any", "host_scheme": "str", "host_port": "any",
+                                                 "host_policy": "any"}, returns="bool", verify=False, **common)
+    reg.external("urllib.parse.urlparse", lambda ex, state, args, kwargs, sv: (
+        ex.raise_if(state, z3.Bool(fresh_name("urlparse_raises")), "ValueError"),
+        VTuple([VStr(z3.String(fresh_name("url_" + n))) for n in ("scheme", "netloc", "path", "params", "query", "fragment")]))[1])
+    reg.external("urllib.parse.parse_qs", lambda ex, state, args, kwargs, sv: ex.reg.fresh(ex, state, "dict:str->seq:str", "query"))
+    # hyperlink (third party): from_text raises URLParseError (a ValueError) for text it cannot parse
+    reg.shape("HUrl", fields={}, methods={"to_uri": "hurl.same", "normalize": "hurl.same", "to_text": "hurl.text"})
+    reg.external("hurl.same", lambda ex, state, args, kwargs, sv: sv)
+    reg.external("hurl.text", lambda ex, state, args, kwargs, sv: VStr(z3.String(fresh_name("url_text"))))
+    reg.external("hyperlink.URL.from_text", lambda ex, state, args, kwargs, sv: (
+        ex.raise_if(state, z3.Bool(fresh_name("url_from_text_raises")), "ValueError"),
+        ex.reg.fresh_obj(ex, state, "HUrl", "url"))[1])
+    CRLF2 = "b'\\r\\n\\r\\n'"
+    END = "old(self.data).find(%s)" % CRLF2
+    H = "self.http_headers"
+    KEYS = ["host", "upgrade", "connection", "sec-websocket-version", "sec-websocket-protocol", "origin",
+            "sec-websocket-origin", "sec-websocket-key", "sec-websocket-extensions", "x-forwarded-for"]
+    reg.contracts.pop(P + ":parseHttpHeader", None)
+    reg.contract(P + ":parseHttpHeader", params={"data": "bytes"}, returns="tuple:str,dict:str->str,dict:str->int",
+                 ensures=["('%s' in result[1]) == ('%s' in result[2]) and implies('%s' in result[2], result[2]['%s'] >= 1)"
+                          % (k, k, k, k) for k in KEYS + ["sec-websocket-accept"]]
+                 + ["'sec-websocket-extensions' not in result[1]"],
+                 verify=False, **common)
+    SRV_OK = "(ghost.n_onconnect == old(ghost.n_onconnect) + 1)"
+    reg.contract(
+        SRV + ".processHandshake", params={"self": "obj:HsServer"}, returns="any",
+        requires=["self.state == 1", "not self.serveFlashSocketPolicy", "self.trustXForwardedFor == 0"],
+        modifies=["self.*", "ghost.n_drop", "ghost.n_onconnect", "ghost.n_fail", "ghost.fail_code", "ghost.n_status"],
+        ensures=[
+            "implies(%s < 0, self.data == old(self.data) and ghost.n_drop == old(ghost.n_drop) and "
+            "ghost.n_onconnect == old(ghost.n_onconnect) and ghost.n_fail == old(ghost.n_fail))" % END,
+            # a complete request is passed on to onConnect or answered with an HTTP error / status page and dropped
+            "implies(%s >= 0, %s != (ghost.n_drop == old(ghost.n_drop) + 1))" % (END, SRV_OK),
+            "ghost.n_onconnect <= old(ghost.n_onconnect) + 1 and ghost.n_drop <= old(ghost.n_drop) + 1",
+            # what must have been true of the request whenever it is passed on (RFC 6455 4.2.1)
+            "implies(%s, 'host' in %s and 'upgrade' in %s and 'connection' in %s)" % (SRV_OK, H, H, H),
+            "implies(%s, self.websocket_version in self.versions)" % SRV_OK,
+            "implies(%s, self._wskey is not None and len(self._wskey) == 24 and self._wskey.endswith('=='))" % SRV_OK,
+            "implies(%s, self.data == old(self.data)[%s + 4:])" % (SRV_OK, END),
+            "implies(%s, not (self.maxConnections > 0 and self.factory.countConnections > self.maxConnections))" % SRV_OK],
+        loops={
+            "iter:self.http_headers['upgrade'].split(',')": {"index": "_i", "invariant": ["not upgradeWebSocket"],
+                                                             "modifies": [], "pure_calls": True},
+            "iter:self.http_headers['connection'].split(',')": {"index": "_i", "invariant": ["not connectionUpgrade"],
+                                                                "modifies": [], "pure_calls": True},
+            "iter:protocols": {"index": "_i", "invariant": ["True"], "modifies": [], "pure_calls": True,
+                               "vars": {"pp": "dict:str->int"}},
+            "iter:key[:-2]": {"index": "_i", "invariant": ["True"], "modifies": [], "pure_calls": True}},
+        inline_calls=[SRV + ".failHandshake"], **common)
+
 
 def _magic():
     return z3.Concat(*[z3.Unit(z3.IntVal(b)) for b in MAGIC])
@@ -165,6 +261,9 @@ def client():
     p = C(); p.log = txaio.make_logger()
     p.factory = f; p.transport = T(); p._transport_details = TransportDetails()
     p._connectionMade()
+    class Timer:
+        def cancel(self): pass
+    p.openHandshakeTimeoutCall = Timer()
     p.websocket_key = base64.b64encode(b"0123456789abcdef")
     p.state = p.STATE_CONNECTING
     return p
@@ -201,6 +300,54 @@ for name, data, should_open in cases:
             bad.append({"case": name, "cut": cut, "opened": opened, "expected": should_open}); break
         if not opened and not (p.transport.aborted or p.transport.closed):
             bad.append({"case": name, "cut": cut, "problem": "rejected but the connection was not dropped"}); break
+        if opened and p.openHandshakeTimeoutCall is not None:
+            bad.append({"case": name, "cut": cut, "problem": "open-handshake timer still referenced after the handshake"}); break
+
+# ---- server side
+def server():
+    f = P.WebSocketServerFactory("ws://localhost:9000"); f.log = txaio.make_logger()
+    class S(P.WebSocketServerProtocol):
+        scheduled = 0
+        def onConnect(self, request):
+            S.scheduled += 1
+            return None
+        def unregisterProducer(self): pass
+        def _closeConnection(self, abort=False):
+            if abort: self.transport.abort()
+            else: self.transport.close()
+    p = S(); p.log = txaio.make_logger(); p.factory = f; p.transport = T(); p._transport_details = TransportDetails()
+    p._connectionMade(); p.state = p.STATE_CONNECTING
+    p._S = S
+    return p
+
+REQ = ("GET /x HTTP/1.1\r\nHost: localhost:9000\r\nUpgrade: websocket\r\nConnection: Upgrade\r\n"
+       "Sec-WebSocket-Key: %s\r\nSec-WebSocket-Version: %s\r\n%s\r\n")
+KEY = base64.b64encode(b"0123456789abcdef").decode()
+scases = [("valid", (REQ % (KEY, "13", "")).encode(), True),
+          ("short key", (REQ % (KEY[:-4] + "==", "13", "")).encode(), False),
+          ("key not base64", (REQ % ("!" * 22 + "==", "13", "")).encode(), False),
+          ("version 99", (REQ % (KEY, "99", "")).encode(), False),
+          ("version abc", (REQ % (KEY, "abc", "")).encode(), False),
+          ("POST", (REQ % (KEY, "13", "")).replace("GET", "POST").encode(), False),
+          ("no host", (REQ % (KEY, "13", "")).replace("Host: localhost:9000\r\n", "").encode(), False),
+          ("bad host port", (REQ % (KEY, "13", "")).replace("localhost:9000", "localhost:abc").encode(), False),
+          ("status page, after=abc", b"GET /?redirect=http%3A%2F%2Fx.y&after=abc HTTP/1.1\r\nHost: localhost:9000\r\n\r\n", False),
+          ("status page, bad redirect", b"GET /?redirect=http%3A%2F%2Fx.y%3Aabc HTTP/1.1\r\nHost: localhost:9000\r\n\r\n", False),
+          ("garbage", b"\x00\xff\xfe garbage\r\n\r\n", False)]
+for name, data, should_pass in scases:
+    for cut in sorted({len(data), 1, len(data) // 2, len(data) - 1}):
+        p = server(); before = p._S.scheduled
+        try:
+            p.data = data[:cut]; p.processHandshake()
+            if cut < len(data):
+                p.data += data[cut:]; p.processHandshake()
+        except Exception as e:
+            bad.append({"side": "server", "case": name, "cut": cut, "escaped": "%s: %s" % (type(e).__name__, e)}); break
+        passed = p._S.scheduled == before + 1
+        if passed != should_pass:
+            bad.append({"side": "server", "case": name, "cut": cut, "passed_on": passed, "expected": should_pass}); break
+        if not passed and not (p.transport.aborted or p.transport.closed):
+            bad.append({"side": "server", "case": name, "cut": cut, "problem": "refused but the connection was not dropped"}); break
 print(json.dumps({"bad": bad}))
 '''
 
@@ -208,10 +355,11 @@ print(json.dumps({"bad": bad}))
 def replay(o):
     from pyvc import replaylib as Rp
     unit = o.get("unit") or o.get("name", "")
-    if "WebSocketClientProtocol.processHandshake" not in unit:
+    if "processHandshake" not in unit:
         return {"reproduced": False, "detail": "no replay harness for this unit"}
     out = Rp.run_py(_HARNESS, timeout=120)
-    hits = out.get("bad") if isinstance(out, dict) else None
+    side = "server" if "ServerProtocol" in unit else "client"
+    hits = [b for b in (out.get("bad") or []) if b.get("side", "client") == side] if isinstance(out, dict) else None
     return {"reproduced": bool(hits), "cases": (hits or [])[:3], "observed": None if hits else out,
             "detail": "handshake responses (valid, each single defect, undecodable octets), each under several read "
                       "boundaries, against the real client protocol (finds real failing inputs only; proves nothing)"}
